@@ -88,9 +88,10 @@ def model_bench(name, phy="sdr_1_1", bankbits=1, rowbits=2, colbits=4, dfi_datab
             legal += [~(act & cur_o[b]), ~(cas & ~cur_o[b]),
                       ~(pre & cur_o[b] & (wrec[b] != 0)), ~(d["rd"] & hit & (wrec[b] != 0)),
                       ~(act & (wrec[b] != 0))]
+            ap = cas & ph.address[10]
             no = Signal()
             nr = Signal(rowbits)
-            top.comb += [no.eq(Mux(act, 1, Mux(pre, 0, cur_o[b]))), nr.eq(Mux(act, ph.address[:rowbits], cur_r[b]))]
+            top.comb += [no.eq(Mux(act, 1, Mux(pre | ap, 0, cur_o[b]))), nr.eq(Mux(act, ph.address[:rowbits], cur_r[b]))]
             cur_o[b], cur_r[b] = no, nr
             wr_b[b] = wr_b[b] | (d["wr"] & hit)
     for b in range(nb):
@@ -106,6 +107,7 @@ def model_bench(name, phy="sdr_1_1", bankbits=1, rowbits=2, colbits=4, dfi_datab
         per_bank_cmds.append(n <= 1)
     asm("one_command_per_bank_per_cycle", monitors.all_(per_bank_cmds))
     asm("trace_is_legal_for_the_reference_dram", monitors.all_(legal))
+    # rows as seen by a CAS in this cycle (bank state before this cycle's commands: one command per bank per cycle)
     # ---- watched byte -----------------------------------------------------------------------------
     WB = Signal(max=max(nb, 2), name_override="WBANK")
     WR = Signal(rowbits, name_override="WROW")
@@ -159,6 +161,11 @@ def model_bench(name, phy="sdr_1_1", bankbits=1, rowbits=2, colbits=4, dfi_datab
     top.submodules += s
     top.comb += c.eq(exp_hit & s.out & (exp_val != 0))
     covers["watched_byte_read_back_after_write"] = c
+    apseen = monitors.Sticky(monitors.any_([(d["rd"] | d["wr"]) & d["ph"].address[10] for d in dec]))
+    top.submodules += apseen
+    c3 = Signal()
+    top.comb += c3.eq(exp_hit & apseen.out & s.out)
+    covers["watched_byte_read_after_an_auto_precharge_and_reactivation"] = c3
     b = bmc.Bench(name, top, inputs, consts={"WBANK": WB, "WROW": WR, "WCOL": WC, "WLANE": WL}, assumes=assumes, bads=bads,
                   covers=covers, info=dict(phy=phy, bankbits=bankbits, rowbits=rowbits, colbits=colbits, wl=wl, rl=rl))
     b.watch = {"val": val, "rdv": vbits, "open0": opn[0]}
@@ -176,11 +183,105 @@ CONFIGS = {
 BENCHES = {n: partial(model_bench, n, **c[0]) for n, c in CONFIGS.items()}
 
 
+def init_image_job(cfg):
+    """initial contents are laid out according to the selected address mapping: the REAL __prepare_bank_init_data is run on an
+    injective image; z3 decides, for a symbolic word address, whether the word stored at the location the mapping assigns to it
+    equals the image word"""
+    import time
+    import z3
+    from litedram.phy.model import SDRAMPHYModel
+    memtype, nph, databits, dfi_databits, bankbits, rowbits, colbits, mapping, nwords32 = cfg
+    label = "init_%s_dw%d_%s_%dwords" % (memtype, dfi_databits * nph, mapping, nwords32)
+    recs = []
+    t0 = time.time()
+    try:
+        obj = SDRAMPHYModel.__new__(SDRAMPHYModel)
+        obj.settings = type("S", (), {})()
+        obj.settings.databits = databits
+        nbanks, nrows, ncols = 2**bankbits, 2**rowbits, 2**colbits
+        data_width = dfi_databits * nph
+        dwb = data_width // 8
+        init = [((i * 0x9E3779B1 + 0x1234567) & 0xffffffff) | 1 for i in range(nwords32)]     # injective, non-zero 32-bit words
+        image_bytes = b"".join(int(w).to_bytes(4, "little") for w in init)
+        bank_init = obj._SDRAMPHYModel__prepare_bank_init_data(list(init), nbanks, nrows, ncols, data_width, mapping)
+        mem_bytes = (databits // 8) * nrows * ncols * nbanks
+        total_words = mem_bytes // dwb
+        words_per_bank = total_words // nbanks
+        words_per_row = words_per_bank // nrows
+        # independent expectation
+        def image_word(L):
+            chunk = image_bytes[L * dwb:(L + 1) * dwb]
+            chunk = chunk + bytes(dwb - len(chunk))
+            return int.from_bytes(chunk, "little")
+        W = max(1, (total_words - 1).bit_length())
+        Lv = z3.BitVec("L", W + 1)
+        img = z3.BitVecVal(0, data_width)
+        for L in range(total_words - 1, -1, -1):
+            img = z3.If(Lv == L, z3.BitVecVal(image_word(L), data_width), img)
+        # what the real function stored, addressed through the mapping
+        stored = z3.BitVecVal(0, data_width)
+        for L in range(total_words - 1, -1, -1):
+            if mapping == "ROW_BANK_COL":
+                row, rem = divmod(L, nbanks * words_per_row)
+                bank, c = divmod(rem, words_per_row)
+            else:
+                bank, rem = divmod(L, words_per_bank)
+                row, c = divmod(rem, words_per_row)
+            idx = row * words_per_row + c
+            lst = bank_init[bank] or []
+            v = int(lst[idx]) if idx < len(lst) else 0
+            stored = z3.If(Lv == L, z3.BitVecVal(v & (2**data_width - 1), data_width), stored)
+        s = z3.Solver()
+        s.add(z3.ULT(Lv, total_words), stored != img)
+        r = str(s.check())
+        rec = dict(q="initial_contents_follow_%s_mapping" % mapping, result=r, s=round(time.time() - t0, 3), expect="unsat")
+        if r == "sat":
+            m = s.model()
+            L = m[Lv].as_long()
+            rec["model"] = dict(word_address=L, image_word=hex(image_word(L)), stored=str(m.eval(stored)))
+        recs.append(rec)
+        s2 = z3.Solver()
+        s2.add(z3.ULT(Lv, total_words), img != 0, Lv >= words_per_bank)
+        recs.append(dict(q="witness_image_reaches_beyond_first_bank", result=str(s2.check()), s=0.0,
+                         expect="sat" if nwords32 * 4 > mem_bytes // nbanks else "unsat"))
+    except Exception as e:
+        import traceback
+        recs.append(dict(q="encode", result="unknown", s=0.0, expect="unsat", detail="%r %s" % (e, traceback.format_exc()[-500:])))
+    return label, cfg, recs
+
+
+INIT_CFGS = [
+    # memtype, nphases, databits, dfi_databits, bankbits, rowbits, colbits, mapping, image size in 32-bit words
+    ("SDR", 1, 32, 32, 2, 3, 3, "ROW_BANK_COL", 256), ("SDR", 1, 32, 32, 2, 3, 3, "BANK_ROW_COL", 256),
+    ("SDR", 1, 16, 16, 2, 3, 3, "ROW_BANK_COL", 128), ("SDR", 1, 16, 16, 2, 3, 3, "BANK_ROW_COL", 100),
+    ("SDR", 1, 8, 8, 1, 2, 3, "ROW_BANK_COL", 16), ("SDR", 1, 8, 8, 1, 2, 3, "BANK_ROW_COL", 16),
+    ("DDR3", 4, 8, 16, 2, 2, 4, "ROW_BANK_COL", 64), ("DDR3", 4, 8, 16, 2, 2, 4, "BANK_ROW_COL", 64),
+    ("DDR3", 4, 8, 16, 2, 2, 4, "BANK_ROW_COL", 40), ("SDR", 1, 32, 32, 2, 3, 3, "ROW_BANK_COL", 37),
+]
+
+
 def run(ctx):
+    import multiprocessing
+    import concurrent.futures as cf
+    with cf.ProcessPoolExecutor(max_workers=4, mp_context=multiprocessing.get_context("fork")) as ex:
+        for label, cfg, recs in ex.map(init_image_job, INIT_CFGS, chunksize=1):
+            for r in recs:
+                ql = "%s:%s" % (label, r["q"])
+                ctx.oblige(ql, r["result"], r["s"], expect=r["expect"], detail=r.get("detail") or r.get("model"))
+                if r["expect"] != "unsat":
+                    if r["result"] != r["expect"]:
+                        ctx.inconclusive.append("%s: witness mismatch" % ql)
+                    continue
+                if r["result"] == "sat":
+                    path = ctx.write_replay(label, r["q"], dict(config=list(cfg), model=r.get("model")))
+                    ctx.violation(label, r["q"], path)
     ctx.assume("legal traces as the LiteDRAM controller produces them: at most one ACT / PRE / RD / WR per controller cycle, one "
                "command per bank per cycle, no PRE/RD/ACT of a bank while a write's data phase is pending (write_latency+1 cycles)")
+    ctx.assume("a read or write with A10=1 auto-precharges its bank in the reference (a later ACT without PRE is legal)")
     ctx.assume("tiny geometry (2-4 banks, 4 rows, 16 columns; address bus kept at 11 bits for A10), read pipeline shortened; "
-               "memory starts zeroed (the init-image clause is not covered yet); refresh/MRS/ZQ commands excluded")
+               "trace benches start from zeroed memory; refresh/MRS/ZQ commands excluded")
+    ctx.assume("init-image clause: the real __prepare_bank_init_data is executed on injective images (several sizes incl. partial "
+               "and multi-bank); the layout query quantifies over every word address of the small memory")
     for n, (kw, kq, kt, tiers) in CONFIGS.items():
         if ctx.only and not ctx.only.search(n):
             continue
